@@ -246,12 +246,20 @@ func (a address) assign(k bool, value int8, valueType reflect.Type) {
 		a.em.fb.emitSetSlice(k, a.op1, value, a.op2, a.pos, valueType.Kind())
 	case assignNonLocalSliceIndex:
 		a.em.fb.emitSetSlice(k, a.op1, value, a.op2, a.pos, valueType.Kind())
-		a.em.fb.emitSetVar(false, a.op1, a.nonLocal, a.addressedType.Kind())
+		if a.addressedType.Kind() != reflect.Slice {
+			// An array is a value and must be written back to the variable.
+			// A slice shares its elements with the variable: writing it
+			// back would be a write to the variable that the program does
+			// not do (a data race if goroutines assign to different
+			// elements).
+			a.em.fb.emitSetVar(false, a.op1, a.nonLocal, a.addressedType.Kind())
+		}
 	case assignLocalMapIndex:
 		a.em.fb.emitSetMap(k, a.op1, value, a.op2, a.addressedType, a.pos)
 	case assignNonLocalMapIndex:
+		// A map shares its elements with the variable, so the variable is
+		// not written back.
 		a.em.fb.emitSetMap(k, a.op1, value, a.op2, a.addressedType, a.pos)
-		a.em.fb.emitSetVar(false, a.op1, a.nonLocal, a.addressedType.Kind())
 	case assignLocalStructSelector:
 		a.em.fb.emitSetField(k, a.op1, a.op2, value, valueType.Kind())
 	case assignNonLocalStructSelector:
